@@ -50,7 +50,13 @@ func vPPTDetails() (wamp.Dict, wamp.List) {
 		d["ppt_serializer"] = vAny("ppt_serializer")
 	}
 	var args wamp.List
-	switch vChoice("args", 5) {
+	switch vChoice("args", 8) {
+	case 5: // the encodings of null
+		args = wamp.List{[]byte("null")}
+	case 6:
+		args = wamp.List{[]byte{0xf6}}
+	case 7:
+		args = wamp.List{[]byte{0xc0}}
 	case 0:
 	case 1:
 		args = wamp.List{[]byte{1, 2, 3}}
@@ -155,4 +161,61 @@ func Harness_C17_HostileMessages() {
 		vAssert("done-signalled-after-close", false)
 	}
 	vCover("hostile-checked")
+}
+
+// the router stops reading while an invocation handler's answer is waiting to
+// be sent; then the session ends: Close returns, nothing is left running
+func Harness_C17_RouterStopsReading() {
+	cl, rt := vNewClient(300 * time.Millisecond)
+	handlerKind := vChoice("handler", 3)
+	err := cl.Register("p", func(ctx context.Context, inv *wamp.Invocation) InvokeResult {
+		switch handlerKind {
+		case 1:
+			return InvokeResult{Err: "app.error"}
+		case 2:
+			<-ctx.Done()
+			return InvokeResult{Err: wamp.ErrCanceled}
+		}
+		return InvokeResult{Args: wamp.List{"ok"}}
+	}, nil)
+	vAssert("registered", err == nil)
+	regID, _ := cl.RegistrationID("p")
+	vGoroutineMark()
+	// the router stops reading
+	close(rt.stop)
+	<-rt.stopped
+	rt.send(&wamp.Invocation{Request: 1, Registration: regID, Details: wamp.Dict{}})
+	vQuiesce()
+	switch vChoice("ending", 4) {
+	case 0: // the transport is lost
+		rt.peer.Close()
+	case 1: // the router says GOODBYE and never reads again
+		rt.send(&wamp.Goodbye{Reason: wamp.CloseSystemShutdown, Details: wamp.Dict{}})
+	case 2: // the router aborts
+		rt.send(&wamp.Abort{Reason: wamp.ErrSystemShutdown, Details: wamp.Dict{}})
+	case 3: // nothing: only the application closes the client
+	}
+	vQuiesce()
+	done := make(chan struct{})
+	go func() {
+		defer close(done)
+		cl.Close()
+	}()
+	// Close may wait for its own bounded timeouts (virtual clock)
+	vQuiesce()
+	vAdvance(int64(2 * time.Second))
+	vQuiesce()
+	select {
+	case <-done:
+	default:
+		vAssert("close-returns-when-router-does-not-read", false)
+		return
+	}
+	select {
+	case <-cl.Done():
+	default:
+		vAssert("done-signalled-after-close", false)
+	}
+	vAssert("no-goroutine-or-handler-left", vGoroutinesSinceMark() <= 0)
+	vCover("router-stopped-reading-checked")
 }
